@@ -151,49 +151,76 @@ const DETECTOR_BODY: &[&str] = &[
     "letmatchit::InsertError::Conflict{with}=eelse{unreachable!(",
     "ifhas_errored{Err(())}else{Ok(())}",
 ];
-/// The generated `domain_router()` must still insert `guard.matchit_pattern()` of every key of a
-/// `BTreeMap<DomainGuard, PathRouter>` and unwrap.
-const INIT_BODY: &[&str] = &[
-    "fndomain_router_init(domain2path_router:&BTreeMap<DomainGuard,PathRouter>,",
-    "letinserts=domain2path_router.keys().enumerate().map(|(i,guard)|{letpattern=guard.matchit_pattern();",
-    "#router.insert(#pattern,#i).unwrap();",
-];
 
-/// Self-check of the replica of `detect_domain_conflicts` / `domain_router_init` against their
-/// source text. Anything unexpected is a machinery error for the caller.
-pub fn detector_model_from_source() -> Result<DetectorModel, String> {
-    let file = format!(
-        "{}/src/compiler/analyses/user_components/router.rs",
-        env!("PAVEXC_DIR")
-    );
-    let src = std::fs::read_to_string(&file).map_err(|e| format!("cannot read {file}: {e}"))?;
-    let flat = strip_comments_and_ws(&src);
-    let start = flat
-        .find("fndetect_domain_conflicts(")
-        .ok_or_else(|| format!("{file}: fn detect_domain_conflicts not found"))?;
+/// A place where the source of the code under test no longer has the structure the engine's
+/// replica was derived from. Never a verdict and never a machinery error: the engine prints
+/// `NOTE replica-out-of-sync: …`, records it in the evidence and skips (only) what depends on it.
+#[derive(Debug, Clone)]
+pub struct ReplicaNote {
+    pub component: &'static str,
+    pub what: String,
+    pub snippet: String,
+    pub consequence: &'static str,
+}
+
+fn clip(s: &str) -> String {
+    if s.len() > 600 {
+        format!("{}…", &s[..s.char_indices().map(|(i, _)| i).take_while(|i| *i <= 600).last().unwrap_or(0)])
+    } else {
+        s.to_string()
+    }
+}
+
+fn read_flat(rel: &str) -> (String, String) {
+    let file = format!("{}/{rel}", env!("PAVEXC_DIR"));
+    match std::fs::read_to_string(&file) {
+        Ok(src) => (file, strip_comments_and_ws(&src)),
+        // An unreadable source tree is an environment problem, not a change of the subject.
+        Err(e) => verif_common::machinery_error(&format!("cannot read {file}: {e}")),
+    }
+}
+
+/// Replica check of `detect_domain_conflicts`. `None` = structure not recognised (note pushed).
+pub fn detector_model_from_source(notes: &mut Vec<ReplicaNote>) -> Option<DetectorModel> {
+    let (file, flat) = read_flat("src/compiler/analyses/user_components/router.rs");
+    let consequence = "the pair law (oracle 3) is not judged in this run: it needs to know which pairs the compiler accepts";
+    let Some(start) = flat.find("fndetect_domain_conflicts(") else {
+        notes.push(ReplicaNote {
+            component: "detect_domain_conflicts",
+            what: format!("{file}: fn detect_domain_conflicts not found"),
+            snippet: String::new(),
+            consequence,
+        });
+        return None;
+    };
     let end = flat[start..]
         .find("fnpush_domain_conflict_diagnostic(")
         .map(|e| start + e)
         .unwrap_or(flat.len());
     let body = &flat[start..end];
+    let mut bail = |what: String| {
+        notes.push(ReplicaNote {
+            component: "detect_domain_conflicts",
+            what,
+            snippet: clip(body),
+            consequence,
+        });
+    };
     for needle in DETECTOR_BODY {
         if !body.contains(needle) {
-            return Err(format!(
-                "{file}: detect_domain_conflicts no longer contains `{needle}`; the engine's replica (subject::detect) must be re-derived"
-            ));
+            bail(format!("{file}: detect_domain_conflicts no longer contains `{needle}`"));
+            return None;
         }
     }
     let ambiguity_check = body.contains("is_ambiguous_with");
     if ambiguity_check {
         if !body.contains(DETECTOR_AMBIGUITY) {
-            return Err(format!(
-                "{file}: detect_domain_conflicts calls is_ambiguous_with in a way rt_domain does not know"
-            ));
+            bail(format!("{file}: detect_domain_conflicts calls is_ambiguous_with in a way rt_domain does not know"));
+            return None;
         }
         if ambiguous_hook("a", "a").is_none() {
-            return Err(format!(
-                "{file}: detect_domain_conflicts runs a pairwise ambiguity check but the linked pavexc has no hook pavexc::verif_domain_guards_ambiguous to replicate it"
-            ));
+            bail(format!("{file}: detect_domain_conflicts runs a pairwise ambiguity check but the linked pavexc has no hook pavexc::verif_domain_guards_ambiguous to replicate it"));
+            return None;
         }
     }
     let order = if body.contains(DETECTOR_LOOP_SORTED) || body.contains(DETECTOR_LOOP_SORTED_BORROWED) {
@@ -201,24 +228,165 @@ pub fn detector_model_from_source() -> Result<DetectorModel, String> {
     } else if body.contains(DETECTOR_LOOP_REGISTRATION) {
         DetectorOrder::Registration
     } else {
-        return Err(format!(
-            "{file}: detect_domain_conflicts iterates the guards in a way rt_domain does not know"
-        ));
+        bail(format!("{file}: detect_domain_conflicts iterates the guards in a way rt_domain does not know"));
+        return None;
     };
-    let file2 = format!("{}/src/compiler/codegen/router.rs", env!("PAVEXC_DIR"));
-    let src2 = std::fs::read_to_string(&file2).map_err(|e| format!("cannot read {file2}: {e}"))?;
-    let flat2 = strip_comments_and_ws(&src2);
-    for needle in INIT_BODY {
-        if !flat2.contains(needle) {
-            return Err(format!(
-                "{file2}: domain_router_init no longer contains `{needle}`; the engine's assumption about the generated router must be re-derived"
-            ));
-        }
-    }
-    Ok(DetectorModel {
+    Some(DetectorModel {
         order,
         ambiguity_check,
     })
+}
+
+// ---------------------------------------------------------------------------------------------
+// Domain ids.
+//
+// codegen/router.rs numbers the per-domain path routers by the position of the guard in
+// `domain2path_router: BTreeMap<DomainGuard, PathRouter>`:
+//
+//   router_impl:        for (i, sub_router) in router.domain2path_router.values().enumerate() {
+//                           … format_ident!("domain_{i}_router") … format_ident!("domain_{i}") …
+//                           route_request.sig.ident = format_ident!("route_domain_{i}");
+//   domain_router:      let domain_dispatch_arms = domain2path_router.iter().enumerate().map(|(i, _)| {
+//                           let domain_router_method_name = format_ident!("route_domain_{i}");
+//                           let i = i as u32;
+//                           quote! { #i => self.#domain_router_method_name(…).await, }
+//   domain_router_init: let inserts = domain2path_router.keys().enumerate().map(|(i, guard)| {
+//                           let pattern = guard.matchit_pattern();
+//                           let i = i as u32;
+//                           quote! { #router.insert(#pattern, #i).unwrap(); }
+//
+// so the value stored in the generated domain router for a guard must be that same position.
+// ---------------------------------------------------------------------------------------------
+
+#[derive(Debug, Clone, PartialEq, Eq)]
+pub enum IdAssignment {
+    /// `domain2path_router.keys().enumerate()` (or `.iter().enumerate()`): id = sorted position
+    Canonical,
+    /// `.enumerate()` is applied to a sequence that the source itself reorders / filters first
+    Reordered {
+        enumerated: String,
+        because: String,
+        statement: String,
+    },
+    /// not recognised either way
+    Unknown,
+}
+
+const DISPATCH_NEEDLES: &[&str] = &[
+    "for(i,sub_router)inrouter.domain2path_router.values().enumerate(){",
+    "letrouter_init_method_name=format_ident!(\"domain_{i}_router\");",
+    "&format_ident!(\"domain_{i}\"),",
+    "route_request.sig.ident=format_ident!(\"route_domain_{i}\");",
+    "letdomain_dispatch_arms=domain2path_router.iter().enumerate().map(|(i,_)|{letdomain_router_method_name=format_ident!(\"route_domain_{i}\");leti=iasu32;quote!{#i=>self.#domain_router_method_name(",
+    "letfields=init_fns.iter().enumerate().map(|(i,init_fn)|{letfield_name=format_ident!(\"domain_{i}\");",
+];
+
+/// Operations that change which element sits at which position.
+const REORDERING_OPS: &[&str] = &[
+    "partition(", ".rev()", ".chain(", "sort_by(", "sort_by_key(", "sort_unstable_by(",
+    "sort_unstable_by_key(", "sort_by_cached_key(", ".reverse()", ".filter(", ".filter_map(",
+    ".skip(", ".step_by(", ".skip_while(", ".rotate_left(", ".rotate_right(", ".swap(", ".retain(",
+    ".dedup", "BinaryHeap", "HashMap", "HashSet",
+];
+
+/// Replica check of `domain_router_init` and of the dispatch-table numbering.
+/// Returns the id assignment and whether the init function still inserts
+/// `guard.matchit_pattern()` of every key and unwraps.
+pub fn id_assignment_from_source(notes: &mut Vec<ReplicaNote>) -> IdAssignment {
+    let (file, flat) = read_flat("src/compiler/codegen/router.rs");
+    let consequence = "the agreement between the ids stored in the generated domain router and the domain_{i} / route_domain_{i} numbering is not judged in-process (the e2e half probes it), and `accepted at compile time but the generated router fails to build` is not judged";
+    let Some(start) = flat.find("fndomain_router_init(") else {
+        notes.push(ReplicaNote {
+            component: "domain_router_init",
+            what: format!("{file}: fn domain_router_init not found"),
+            snippet: String::new(),
+            consequence,
+        });
+        return IdAssignment::Unknown;
+    };
+    let end = flat[start..]
+        .find("fndomain_router(domain2path_router:")
+        .map(|e| start + e)
+        .unwrap_or(flat.len());
+    let body = &flat[start..end];
+    let mut unknown = |what: String| {
+        notes.push(ReplicaNote {
+            component: "domain_router_init",
+            what,
+            snippet: clip(body),
+            consequence,
+        });
+        IdAssignment::Unknown
+    };
+    // the dispatch table must still be numbered by sorted position
+    for needle in DISPATCH_NEEDLES {
+        if !flat.contains(needle) {
+            return unknown(format!("{file}: the domain_{{i}} / route_domain_{{i}} numbering no longer contains `{needle}`"));
+        }
+    }
+    if !body.starts_with("fndomain_router_init(domain2path_router:&BTreeMap<DomainGuard,PathRouter>,") {
+        return unknown(format!("{file}: domain_router_init no longer takes the sorted `BTreeMap<DomainGuard, PathRouter>`"));
+    }
+    if !body.contains(".matchit_pattern()") {
+        return unknown(format!("{file}: domain_router_init no longer inserts `guard.matchit_pattern()`"));
+    }
+    // `#router.insert(#<pattern>, #<id>).unwrap();`
+    let Some(ins) = body.find(".insert(#") else {
+        return unknown(format!("{file}: domain_router_init: no `#router.insert(#pattern, #id)` found"));
+    };
+    let args = &body[ins + ".insert(#".len()..];
+    let Some(close) = args.find(')') else {
+        return unknown(format!("{file}: domain_router_init: malformed insert"));
+    };
+    let mut parts = args[..close].split(",#");
+    let (Some(_pat_var), Some(id_var), None) = (parts.next(), parts.next(), parts.next()) else {
+        return unknown(format!("{file}: domain_router_init: insert arguments `{}` not understood", &args[..close]));
+    };
+    if !args[close..].starts_with(").unwrap();") {
+        return unknown(format!("{file}: domain_router_init: the insert is no longer unwrapped"));
+    }
+    // the id must be the index of exactly one `.enumerate()`
+    if body.matches(".enumerate()").count() != 1 {
+        return unknown(format!("{file}: domain_router_init: expected exactly one `.enumerate()`, found {}", body.matches(".enumerate()").count()));
+    }
+    let en = body.find(".enumerate()").unwrap();
+    let after = &body[en + ".enumerate()".len()..];
+    // what is enumerated: back to the start of the statement
+    let stmt_start = body[..en].rfind(|c| c == ';' || c == '{').map(|i| i + 1).unwrap_or(0);
+    let stmt = &body[stmt_start..en];
+    // `<seq>.enumerate().map(|(i, guard)| …)` or `for (i, guard) in <seq>.enumerate() {`
+    let (idx_var, enumerated) = if let Some(closure) = after.strip_prefix(".map(|(") {
+        let enumerated = match stmt.find('=') {
+            Some(eq) if stmt.starts_with("let") => &stmt[eq + 1..],
+            _ => stmt,
+        };
+        (closure.split(',').next().unwrap_or_default(), enumerated)
+    } else if let (true, Some(pat)) = (after.starts_with('{'), stmt.strip_prefix("for(")) {
+        let Some(in_at) = pat.find(")in") else {
+            return unknown(format!("{file}: domain_router_init: `for` over `.enumerate()` not understood"));
+        };
+        (pat.split(',').next().unwrap_or_default(), &pat[in_at + 3..])
+    } else {
+        return unknown(format!("{file}: domain_router_init: `.enumerate()` is followed neither by `.map(|(i, …)|` nor by a `for` body"));
+    };
+    let id_is_index = id_var == idx_var
+        && (body.contains(&format!("let{id_var}={idx_var}asu32;")) || !body.contains(&format!("let{id_var}=")));
+    if !id_is_index {
+        return unknown(format!("{file}: domain_router_init: the inserted id `#{id_var}` is not plainly the enumerate index `{idx_var}`"));
+    }
+    if enumerated == "domain2path_router.keys()" || enumerated == "domain2path_router.iter()" {
+        return IdAssignment::Canonical;
+    }
+    // Not the map itself. Did the source reorder / filter what it enumerates?
+    let prelude = &body[..en];
+    if let Some(op) = REORDERING_OPS.iter().find(|op| prelude.contains(**op)) {
+        return IdAssignment::Reordered {
+            enumerated: enumerated.to_string(),
+            because: op.to_string(),
+            statement: clip(prelude),
+        };
+    }
+    unknown(format!("{file}: domain_router_init enumerates `{enumerated}` instead of `domain2path_router.keys()`"))
 }
 
 /// Insert the patterns in the given order, as `detect_domain_conflicts` does; value = index.
@@ -321,18 +489,31 @@ pub fn normalise_as_quoted_leading_slash(header_value: &[u8]) -> Option<String> 
 #[derive(Debug, Clone, Copy, PartialEq, Eq)]
 pub enum Step {
     TrimEndDots,
+    TrimStartDots,
     DotsToSlashes,
     Reverse,
     AsciiLower,
     PrependSlash,
 }
 
-const STEP_TOKENS: &[(&str, Step)] = &[
-    (".trim_end_matches('.')", Step::TrimEndDots),
-    (".replace('.',\"/\")", Step::DotsToSlashes),
-    (".chars().rev().collect()", Step::Reverse),
-    (".to_ascii_lowercase()", Step::AsciiLower),
-    (".to_lowercase()", Step::AsciiLower),
+/// Known steps, in any order and any number. `None` = changes the Rust type only
+/// (`&str` / `String` / `impl Iterator<char>`), not the characters.
+const STEP_TOKENS: &[(&str, Option<Step>)] = &[
+    (".trim_end_matches('.')", Some(Step::TrimEndDots)),
+    (".trim_end_matches(\".\")", Some(Step::TrimEndDots)),
+    (".trim_start_matches('.')", Some(Step::TrimStartDots)),
+    (".trim_start_matches(\".\")", Some(Step::TrimStartDots)),
+    (".replace('.',\"/\")", Some(Step::DotsToSlashes)),
+    (".replace(\".\",\"/\")", Some(Step::DotsToSlashes)),
+    (".chars().rev()", Some(Step::Reverse)),
+    (".to_ascii_lowercase()", Some(Step::AsciiLower)),
+    (".to_lowercase()", Some(Step::AsciiLower)),
+    (".collect::<String>()", None),
+    (".collect()", None),
+    (".to_string()", None),
+    (".to_owned()", None),
+    (".as_str()", None),
+    (".chars()", None),
 ];
 
 /// Closure bodies (comments and whitespace removed) the engine has a hard-wired copy of.
@@ -349,8 +530,6 @@ pub const KNOWN_BODIES: &[(&str, fn(&[u8]) -> Option<String>)] = &[
 pub const EXPECTED_PRELUDE: &str =
     ".map(|h|#pavex::http::uri::Authority::try_from(h.as_bytes()).ok()).flatten().map(|a|";
 pub const EXPECTED_LOOKUP: &str = "self.domain_router.at(host.as_str())";
-const LET_FORM_HEAD: &str = "{lethost=a.host()";
-const LET_FORM_TAIL: &str = ";::std::iter::once('/').chain(host.chars().rev()).collect()}";
 
 /// What the generator source says the generated code does with the host.
 #[derive(Debug, Clone)]
@@ -362,6 +541,8 @@ pub struct GeneratedNormaliser {
     /// the hard-wired copy for this exact text, if the engine has one
     pub hard_wired: Option<fn(&[u8]) -> Option<String>>,
     pub identical_to_expected: bool,
+    /// false = the source was not understood and `steps` are the last known-good ones
+    pub followed_from_source: bool,
 }
 
 fn strip_comments_and_ws(src: &str) -> String {
@@ -404,81 +585,175 @@ fn until_matching_paren(text: &str) -> Option<&str> {
     None
 }
 
-fn tokenise(mut chain: &str, whole: &str, file: &str) -> Result<Vec<Step>, String> {
-    let mut steps = Vec::new();
-    'outer: while !chain.is_empty() {
+/// Split at top-level `;` (not inside brackets / literals).
+fn split_statements(text: &str) -> Vec<&str> {
+    let b = text.as_bytes();
+    let (mut depth, mut i, mut last) = (0usize, 0usize, 0usize);
+    let mut out = Vec::new();
+    while i < b.len() {
+        match b[i] {
+            b'\'' if i + 2 < b.len() && b[i + 2] == b'\'' => i += 2,
+            b'"' => {
+                i += 1;
+                while i < b.len() && b[i] != b'"' {
+                    i += 1;
+                }
+            }
+            b'(' | b'{' | b'[' => depth += 1,
+            b')' | b'}' | b']' => depth = depth.saturating_sub(1),
+            b';' if depth == 0 => {
+                out.push(&text[last..i]);
+                last = i + 1;
+            }
+            _ => {}
+        }
+        i += 1;
+    }
+    out.push(&text[last..]);
+    out
+}
+
+type Env = Vec<(String, Vec<Step>)>;
+
+/// `a.host()<steps>` or `<bound variable><steps>`, the known steps in any order.
+fn follow_chain(expr: &str, env: &Env) -> Result<Vec<Step>, String> {
+    let (mut steps, mut rest) = if let Some(r) = expr.strip_prefix("a.host()") {
+        (Vec::new(), r)
+    } else if let Some((name, st)) = env
+        .iter()
+        .rev()
+        .find(|(n, _)| expr.strip_prefix(n.as_str()).map(|r| r.is_empty() || r.starts_with('.')).unwrap_or(false))
+    {
+        (st.clone(), &expr[name.len()..])
+    } else {
+        return Err(format!("`{expr}` starts neither with `a.host()` nor with a variable bound to it"));
+    };
+    'outer: while !rest.is_empty() {
         for (tok, step) in STEP_TOKENS {
-            if let Some(rest) = chain.strip_prefix(tok) {
-                steps.push(*step);
-                chain = rest;
+            if let Some(r) = rest.strip_prefix(tok) {
+                if let Some(st) = step {
+                    steps.push(*st);
+                }
+                rest = r;
                 continue 'outer;
             }
         }
-        return Err(format!(
-            "{file}: unrecognised step in the generated host normalisation at `{chain}` \
-             (whole closure body `{whole}`); teach rt_domain about it"
-        ));
+        return Err(format!("unrecognised step at `{rest}`"));
     }
     Ok(steps)
 }
 
+/// The whole closure body: a chain, or a block of `let x = <chain>;` followed by a chain,
+/// optionally wrapped in one of the known "prepend a slash" forms.
+fn follow_body(body: &str) -> Result<Vec<Step>, String> {
+    let mut env: Env = Vec::new();
+    let last = if let Some(inner) = body.strip_prefix('{').and_then(|b| b.strip_suffix('}')) {
+        let stmts = split_statements(inner);
+        let (last, lets) = stmts.split_last().unwrap();
+        for st in lets {
+            let Some(l) = st.strip_prefix("let") else {
+                return Err(format!("statement `{st}` is not a `let`"));
+            };
+            let l = l.strip_prefix("mut").unwrap_or(l);
+            let Some(eq) = l.find('=') else {
+                return Err(format!("statement `{st}` has no initialiser"));
+            };
+            let name = l[..eq].split(':').next().unwrap().to_string();
+            if name.is_empty() || !name.chars().all(|c| c.is_ascii_alphanumeric() || c == '_') {
+                return Err(format!("binding `{}` not understood", &l[..eq]));
+            }
+            let steps = follow_chain(&l[eq + 1..], &env)?;
+            env.push((name, steps));
+        }
+        *last
+    } else {
+        body
+    };
+    // `::std::iter::once('/').chain(<chain>).collect()` / `format!("/{}", <chain>)`
+    for (head, tail) in [
+        ("::std::iter::once('/').chain(", ").collect()"),
+        ("std::iter::once('/').chain(", ").collect()"),
+        ("::std::iter::once('/').chain(", ").collect::<String>()"),
+        ("std::iter::once('/').chain(", ").collect::<String>()"),
+        ("format!(\"/{}\",", ")"),
+    ] {
+        if let Some(inner) = last.strip_prefix(head).and_then(|l| l.strip_suffix(tail)) {
+            let mut steps = follow_chain(inner, &env)?;
+            steps.push(Step::PrependSlash);
+            return Ok(steps);
+        }
+    }
+    follow_chain(last, &env)
+}
+
 impl GeneratedNormaliser {
     /// Read `codegen/router.rs` of the pavexc crate this binary is linked against and recover what
-    /// the `.map(|a| …)` closure does to `a.host()`. Unknown steps are a machinery error (the
-    /// engine must be taught about them), known steps in a different composition are *followed*,
-    /// so that a semantic change of the generated normalisation shows up as routing violations.
-    pub fn from_source() -> Result<GeneratedNormaliser, String> {
-        let file = format!("{}/src/compiler/codegen/router.rs", env!("PAVEXC_DIR"));
-        let src = std::fs::read_to_string(&file).map_err(|e| format!("cannot read {file}: {e}"))?;
-        let flat = strip_comments_and_ws(&src);
-        let start = flat
-            .find("fndomain_router(domain2path_router:")
-            .ok_or_else(|| format!("{file}: `fn domain_router(domain2path_router:` not found"))?;
-        let body = &flat[start..];
-        let pre = body.find(EXPECTED_PRELUDE).ok_or_else(|| {
-            format!("{file}: the generated code no longer obtains the host via `{EXPECTED_PRELUDE}`")
-        })?;
-        if !body.contains(EXPECTED_LOOKUP) {
-            return Err(format!(
-                "{file}: the generated code no longer looks the host up via `{EXPECTED_LOOKUP}`"
-            ));
-        }
-        let closure = until_matching_paren(&body[pre + EXPECTED_PRELUDE.len()..])
-            .ok_or_else(|| format!("{file}: end of the `.map(|a| …)` closure not found"))?;
-        let chain_text = closure.to_string();
-        let steps = if let Some(chain) = closure.strip_prefix("a.host()") {
-            let steps = tokenise(chain, closure, &file)?;
-            if steps.last() != Some(&Step::Reverse) {
-                return Err(format!(
-                    "{file}: generated host normalisation `{chain_text}` does not end in \
-                     `.chars().rev().collect()`; teach rt_domain about it"
-                ));
+    /// the `.map(|a| …)` closure does to `a.host()`.
+    ///
+    /// * Any composition (order, repetition) of the known steps is *followed*, so a semantic change
+    ///   of the generated normalisation shows up as routing violations.
+    /// * Anything else: a `ReplicaNote`, and the last known-good normalisation (the quoted copy
+    ///   that fits the pattern format, `leading_slash`) is used instead, labelled as such.
+    pub fn from_source(leading_slash: bool, notes: &mut Vec<ReplicaNote>) -> GeneratedNormaliser {
+        let (file, flat) = read_flat("src/compiler/codegen/router.rs");
+        let (kg_text, kg_fn) = KNOWN_BODIES[leading_slash as usize];
+        let consequence = "hosts are normalised with the last known-good copy of the generated normalisation instead of the current one: a change of the normalisation itself cannot be seen in this run (validator, patterns, matching and the pair law are still judged)";
+        let mut fallback = |what: String, snippet: &str, notes: &mut Vec<ReplicaNote>| {
+            notes.push(ReplicaNote {
+                component: "host-normalisation",
+                what,
+                snippet: clip(snippet),
+                consequence,
+            });
+            GeneratedNormaliser {
+                source_file: file.clone(),
+                chain_text: kg_text.to_string(),
+                steps: follow_body(kg_text).expect("known-good body is followable"),
+                hard_wired: Some(kg_fn),
+                identical_to_expected: false,
+                followed_from_source: false,
             }
-            steps
-        } else if let Some(mid) = closure
-            .strip_prefix(LET_FORM_HEAD)
-            .and_then(|r| r.strip_suffix(LET_FORM_TAIL))
-        {
-            let mut steps = tokenise(mid, closure, &file)?;
-            if steps.contains(&Step::Reverse) {
-                return Err(format!("{file}: generated host normalisation `{chain_text}` reverses twice"));
-            }
-            steps.push(Step::Reverse);
-            steps.push(Step::PrependSlash);
-            steps
-        } else {
-            return Err(format!(
-                "{file}: the `.map(|a| …)` closure `{chain_text}` has an unknown structure; teach rt_domain about it"
-            ));
         };
-        let hard_wired = KNOWN_BODIES.iter().find(|(t, _)| *t == chain_text).map(|(_, f)| *f);
-        Ok(GeneratedNormaliser {
-            source_file: file,
-            identical_to_expected: hard_wired.is_some(),
-            hard_wired,
-            chain_text,
-            steps,
-        })
+        let Some(start) = flat.find("fndomain_router(domain2path_router:") else {
+            return fallback(format!("{file}: `fn domain_router(domain2path_router:` not found"), "", notes);
+        };
+        let body = &flat[start..];
+        let Some(pre) = body.find(EXPECTED_PRELUDE) else {
+            let around = body.find(".headers()").map(|i| &body[i..]).unwrap_or(body);
+            return fallback(
+                format!("{file}: the generated code no longer obtains the host via `{EXPECTED_PRELUDE}`"),
+                around,
+                notes,
+            );
+        };
+        if !body.contains(EXPECTED_LOOKUP) {
+            return fallback(
+                format!("{file}: the generated code no longer looks the host up via `{EXPECTED_LOOKUP}`"),
+                &body[pre..],
+                notes,
+            );
+        }
+        let Some(closure) = until_matching_paren(&body[pre + EXPECTED_PRELUDE.len()..]) else {
+            return fallback(format!("{file}: end of the `.map(|a| …)` closure not found"), &body[pre..], notes);
+        };
+        match follow_body(closure) {
+            Ok(steps) => {
+                let hard_wired = KNOWN_BODIES.iter().find(|(t, _)| *t == closure).map(|(_, f)| *f);
+                GeneratedNormaliser {
+                    source_file: file,
+                    identical_to_expected: hard_wired.is_some(),
+                    hard_wired,
+                    chain_text: closure.to_string(),
+                    steps,
+                    followed_from_source: true,
+                }
+            }
+            Err(e) => fallback(
+                format!("{file}: the host normalisation closure is not a composition of the steps rt_domain knows: {e}"),
+                closure,
+                notes,
+            ),
+        }
     }
 
     /// Apply the steps found in the generator source.
@@ -488,6 +763,7 @@ impl GeneratedNormaliser {
         for st in &self.steps {
             s = match st {
                 Step::TrimEndDots => s.trim_end_matches('.').to_string(),
+                Step::TrimStartDots => s.trim_start_matches('.').to_string(),
                 Step::DotsToSlashes => s.replace('.', "/"),
                 Step::Reverse => s.chars().rev().collect(),
                 Step::AsciiLower => s.to_ascii_lowercase(),
